@@ -23,6 +23,22 @@ pub struct Cfg {
     pub clears: usize,
     /// make the k-th select call of the tracer fail fatally (the error path takes the write lock)
     pub fatal_at_select: Option<usize>,
+    /// instead of running the strategy, the tracer thread publishes these scripted rounds through
+    /// the same handler (`verif_apply_round`): shapes whose path length changes between rounds
+    pub script: Vec<u8>,
+}
+
+/// Scripted round shapes: 0 = target found at 2 with probes for ttl 3 and 4 still in flight,
+/// 1 = four answering hops, 2 = another ECMP branch (new flow) of length 3.
+fn script_round(kind: u8, i: usize) -> RoundRec {
+    use stateexp::{Out, Shape};
+    let c = |sel: u8| Out::C(2_000_000 + 1000 * i as u64, sel, None, None);
+    let shape = match kind {
+        0 => Shape { first_ttl: 1, outs: vec![c(1), c(1), Out::A, Out::A], largest_ttl: Some(2) },
+        1 => Shape { first_ttl: 1, outs: vec![c(1), c(1), c(1), c(1)], largest_ttl: None },
+        _ => Shape { first_ttl: 1, outs: vec![c(1), c(2), c(1)], largest_ttl: None },
+    };
+    stateexp::build(&shape, i, (i as u16) * 16)
 }
 
 #[derive(Debug, Clone)]
@@ -82,6 +98,23 @@ pub fn run_once(cfg: &Cfg, chooser: Chooser) -> Outcome {
         handles.push(std::thread::spawn(move || {
             sched.thread_begin(0);
             let _g = EndGuard(sched.clone(), 0);
+            if !cfg.script.is_empty() {
+                let mut last = sched.mark(0, "run-start");
+                for (i, k) in cfg.script.iter().enumerate() {
+                    let rr = script_round(*k, i);
+                    tracer.verif_apply_round(&trippy_core::Round::new(&rr.probes, trippy_core::TimeToLive(rr.largest_ttl), trippy_core::CompletionReason::TargetFound));
+                    let ret = sched.mark(0, "publish-callback");
+                    let idx = {
+                        let mut rs = rounds.lock().unwrap();
+                        rs.push(rr);
+                        rs.len() - 1
+                    };
+                    ops.lock().unwrap_or_else(std::sync::PoisonError::into_inner).push(Op { tid: 0, kind: OpKind::Apply(idx), call: last, ret });
+                    last = ret;
+                }
+                sched.mark(0, "run-end");
+                return;
+            }
             let topo = drive::topo_named(&cell, "L2");
             let mut menu = Menu::default();
             let world_chooser = match cfg.fatal_at_select {
@@ -232,7 +265,7 @@ pub fn linearizable(o: &Outcome) -> Result<Vec<usize>, String> {
 }
 
 fn cfg_json(c: &Cfg) -> Value {
-    json!({"rounds": c.rounds, "readers": c.readers, "clears": c.clears, "fatal_at_select": c.fatal_at_select})
+    json!({"rounds": c.rounds, "readers": c.readers, "clears": c.clears, "fatal_at_select": c.fatal_at_select, "script": c.script})
 }
 
 pub fn judge(o: &Outcome) -> Vec<(String, String)> {
@@ -264,19 +297,25 @@ pub fn run(args: &Args) -> i32 {
     let mut rep = Report::new("C20", tier, "model_checking");
     let cfgs: Vec<Cfg> = match tier {
         Tier::Quick => vec![
-            Cfg { rounds: 2, readers: vec![2], clears: 1, fatal_at_select: None },
-            Cfg { rounds: 3, readers: vec![2], clears: 1, fatal_at_select: None },
-            Cfg { rounds: 2, readers: vec![1, 1], clears: 1, fatal_at_select: None },
-            Cfg { rounds: 2, readers: vec![2], clears: 1, fatal_at_select: Some(9) },
+            Cfg { rounds: 2, readers: vec![2], clears: 1, fatal_at_select: None, script: vec![] },
+            Cfg { rounds: 3, readers: vec![2], clears: 1, fatal_at_select: None, script: vec![] },
+            Cfg { rounds: 2, readers: vec![1, 1], clears: 1, fatal_at_select: None, script: vec![] },
+            Cfg { rounds: 2, readers: vec![2], clears: 1, fatal_at_select: Some(9), script: vec![] },
+            // scripted publisher: the path grows after a clear / a new flow appears
+            Cfg { rounds: 2, readers: vec![2], clears: 1, fatal_at_select: None, script: vec![0, 1] },
+            Cfg { rounds: 3, readers: vec![2], clears: 1, fatal_at_select: None, script: vec![0, 2, 1] },
         ],
         Tier::Thorough => vec![
-            Cfg { rounds: 2, readers: vec![2], clears: 1, fatal_at_select: None },
-            Cfg { rounds: 3, readers: vec![2], clears: 1, fatal_at_select: None },
-            Cfg { rounds: 3, readers: vec![3], clears: 2, fatal_at_select: None },
-            Cfg { rounds: 4, readers: vec![3], clears: 2, fatal_at_select: None },
-            Cfg { rounds: 3, readers: vec![2, 2], clears: 1, fatal_at_select: None },
-            Cfg { rounds: 2, readers: vec![2], clears: 2, fatal_at_select: Some(9) },
-            Cfg { rounds: 3, readers: vec![2, 1], clears: 1, fatal_at_select: Some(14) },
+            Cfg { rounds: 2, readers: vec![2], clears: 1, fatal_at_select: None, script: vec![] },
+            Cfg { rounds: 3, readers: vec![2], clears: 1, fatal_at_select: None, script: vec![] },
+            Cfg { rounds: 3, readers: vec![3], clears: 2, fatal_at_select: None, script: vec![] },
+            Cfg { rounds: 4, readers: vec![3], clears: 2, fatal_at_select: None, script: vec![] },
+            Cfg { rounds: 3, readers: vec![2, 2], clears: 1, fatal_at_select: None, script: vec![] },
+            Cfg { rounds: 2, readers: vec![2], clears: 2, fatal_at_select: Some(9), script: vec![] },
+            Cfg { rounds: 3, readers: vec![2, 1], clears: 1, fatal_at_select: Some(14), script: vec![] },
+            Cfg { rounds: 2, readers: vec![2], clears: 1, fatal_at_select: None, script: vec![0, 1] },
+            Cfg { rounds: 3, readers: vec![3], clears: 2, fatal_at_select: None, script: vec![0, 2, 1] },
+            Cfg { rounds: 4, readers: vec![2, 1], clears: 1, fatal_at_select: None, script: vec![1, 0, 2, 1] },
         ],
     };
     let findings: Mutex<BTreeMap<String, Finding>> = Mutex::new(BTreeMap::new());
@@ -394,6 +433,7 @@ pub fn replay(path: &str) -> i32 {
         readers: c["readers"].as_array().unwrap().iter().map(|x| x.as_u64().unwrap() as usize).collect(),
         clears: c["clears"].as_u64().unwrap() as usize,
         fatal_at_select: c["fatal_at_select"].as_u64().map(|x| x as usize),
+        script: c["script"].as_array().map(|a| a.iter().map(|x| x.as_u64().unwrap_or(0) as u8).collect()).unwrap_or_default(),
     };
     let schedule: Vec<u16> = r["schedule"].as_array().unwrap().iter().map(|c| c.as_u64().unwrap() as u16).collect();
     let o = run_once(&cfg, Chooser::new(&schedule, 100_000));
